@@ -11,7 +11,8 @@ From Coq Require Import ZArith List Bool Sorted.
 From Low Require Import Lib.Bits Lib.BitSeq Model.BuilderOps Model.BitmapOf Spec.OfSpec
   Proofs.OfProofs Proofs.OfInspect Proofs.OfRoundTrip Proofs.BuilderProofs
   Model.BitmapMask12 Spec.MaskSpec12 Proofs.MaskProofs Model.BitmapFmt12 Spec.FmtSpec12 Proofs.FmtProofs12
-  Model.Rank Model.BitmapNext Spec.OfQuerySpec Proofs.OfCompose Proofs.OfTotal Proofs.BuilderLen Model.BitmapOf32 Proofs.Of32 Proofs.BuilderEqOf Proofs.BuilderOfManySet.
+  Model.Rank Model.BitmapNext Spec.OfQuerySpec Proofs.OfCompose Proofs.OfTotal Proofs.BuilderLen Model.BitmapOf32 Proofs.Of32 Proofs.BuilderEqOf Proofs.BuilderOfManySet
+  Model.BuilderMem Spec.BuilderMemSpec Proofs.BuilderMemProofs.
 Import ListNotations.
 Open Scope Z_scope.
 
@@ -397,6 +398,27 @@ Theorem C12_Builder_OfMany_set : forall n subs sizes,
 Proof. exact Builder_Extend_OfMany_set. Qed.
 Print Assumptions C12_Builder_OfMany_set.
 
+(** * Builder used through its exported fields: literals over a caller's buffer, roll-backs *)
+(** a roll-back [b.Words = b.Words[:k]; b.Offset = 64k] to a checkpoint not beyond the offset keeps the invariant: the
+    positions below 64k stay, everything else is forgotten *)
+Theorem C12_Builder_rollback : forall a b k,
+  binv a b -> 0 <= k -> 64 * k <= aoff a ->
+  exists b', rollback b k = Some b' /\ binv (amstep a (MRollback k)) b'.
+Proof. exact rollback_inv. Qed.
+Print Assumptions C12_Builder_rollback.
+
+(** from a builder literal over ANY well-formed buffer content (words ws0, offset inside them), through any history of
+    Extend / Set / roll-back: no panic, and after EVERY call Offset and the 1-bits of Words are those of the abstract
+    machine started with the 1-bits of ws0 — nothing cut off by a roll-back and nothing lying beyond Words in the
+    caller's buffer ever reappears (the model grows Words with zero words only, as the code does) *)
+Theorem C12_Builder_mem_history : forall ws0 off0 ops,
+  start_dom ws0 off0 = true -> mhist_dom (abs_of ws0 off0) ops = true ->
+  exists bs, mrun {| Words := ws0; Offset := off0 |} ops = Some bs /\
+    Forall2 (fun a b => builder_ok a (Words b) (Offset b) /\ 0 <= Offset b <= 64 * zlen (Words b))
+            (amrun (abs_of ws0 off0) ops) bs.
+Proof. exact Builder_mem_history. Qed.
+Print Assumptions C12_Builder_mem_history.
+
 (** * non-vacuity *)
 (** Of: positions at 63/64/65 and a gap of more than 3 words, n smaller than last+1 *)
 Example C12_Of_nonvacuous :
@@ -514,4 +536,17 @@ Example C12_OfMany_nonpanic_nonvacuous :
   shifted [[0; 70]; [1]] [1; 100] 0 = [0; 70; 2] /\
   OfMany [[0; 70]; [1]] [1; 100] = Some [5; 64] /\
   ofmany_dom2 [[0; 200]; [1]] [4; 60] = false.
+Proof. vm_compute. intuition congruence. Qed.
+
+(** roll-back: a speculative Extend reaches word 1, the builder is rolled back to word 1... then to word 0 and extended
+    again: the earlier bit 70 must not come back *)
+Example C12_Builder_mem_nonvacuous :
+  start_dom [] 0 = true /\
+  mhist_dom (abs_of [] 0) [MStep (BExtend [0; 70] 128); MRollback 1; MStep (BExtend [] 128)] = true /\
+  mrun {| Words := []; Offset := 0 |} [MStep (BExtend [0; 70] 128); MRollback 1; MStep (BExtend [] 128)] =
+    Some [ {| Words := []; Offset := 0 |}; {| Words := [1; 64]; Offset := 128 |};
+           {| Words := [1]; Offset := 64 |}; {| Words := [1; 0; 0]; Offset := 192 |} ] /\
+  amrun (abs_of [] 0) [MStep (BExtend [0; 70] 128); MRollback 1; MStep (BExtend [] 128)] =
+    [ {| abits := []; aoff := 0 |}; {| abits := [0; 70]; aoff := 128 |};
+      {| abits := [0]; aoff := 64 |}; {| abits := [0]; aoff := 192 |} ].
 Proof. vm_compute. intuition congruence. Qed.
